@@ -721,7 +721,7 @@ def gen_grid(rng, tier):
             cases.append(("std:" + f, ("call", f, [ea, eb])))
         if b[1] == 1 and abs(b[0]) <= 6:
             cases.append(("std:pow", ("call", "pow", [ea, eb])))
-        elif k % 50 == 0:
+        elif k % 47 == 0:
             cases.append(("std:pow-float", ("call", "pow", [ea, eb])))
     return cases
 
